@@ -205,7 +205,7 @@ def parseReq (p : Json) : Except String Request := do
          payload := payload }
 
 def outcomeOf (result : String) (hasResp : Bool) (status : Nat) : Option Outcome :=
-  if result = "" then (if hasResp then none else some .pass)
+  if result = "" then (if hasResp then some .pass else some .pass)
   else if result = "invalid" && hasResp then some (.invalid status) else none
 
 def outcomeJson : Outcome → Json
@@ -279,6 +279,8 @@ def judgeReq (cfgJ : Json) (ro : Json) : Except String ReqVerdict := do
   let user := if cfg.basic then basicValidate env0.users r.std.headers else none
   let userOK := if got == some .pass && cfg.basic then some (optBytes ro "auth_user") == user else true
   let opaqueOK := optStr p "opaque" == ""
+  -- a passing request must not carry an error response
+  let respOK := optStr ro "result" != "" || !optBool ro "has_resp"
   let shaOK := match jwtCfg with
     | some j => match jwtToken j env0.cookie r.std.headers with
       | some t => !(shaBad t (sb "HS256") j.secret)
@@ -305,8 +307,8 @@ def judgeReq (cfgJ : Json) (ro : Json) : Except String ReqVerdict := do
     else if s0 == .pass then "validator:rejected-valid:" ++ kind
     else "validator:wrong-status"
   let note := (if fwdOK then "" else "forwarded payload changed; ") ++ (if userOK then "" else "X-AUTH-USER mismatch; ")
-    ++ (if opaqueOK then "" else "URL.Opaque non-empty; ") ++ (if shaOK then "" else "Lean HMAC-SHA256 != crypto/hmac on HS256 token; ")
-  pure { agree := agreeOutcome && fwdOK && userOK && opaqueOK && shaOK, spec := specOutcome && fwdOK,
+    ++ (if opaqueOK then "" else "URL.Opaque non-empty; ") ++ (if respOK then "" else "passing request carries an error response; ") ++ (if shaOK then "" else "Lean HMAC-SHA256 != crypto/hmac on HS256 token; ")
+  pure { agree := agreeOutcome && fwdOK && userOK && opaqueOK && shaOK && respOK, spec := specOutcome && fwdOK,
          expected := Json.mkObj [("label", label), ("model", outcomeJson m0), ("spec", outcomeJson s0)],
          tags := tags, accepted := accepted, sig := sig, note := note }
 
